@@ -916,18 +916,30 @@ func (h *hist) genOp() *hop {
 		}[r.Intn(5)]
 		return &hop{name: "plain-elem-mutate", stmt: stmt, rootVar: name, opNodes: withNode(hv.nodes, any(pm(x.m))), direct: hv.shape, mutating: true}
 	default: // assign a live view of a field of a different message type (must fail cleanly)
+		which := r.Intn(5)
 		stmt := [...]string{
 			fmt.Sprintf("%s.r_rec = %s.r_msg", ps, qs),
 			fmt.Sprintf("%s.r_msg = %s.r_rec", ps, qs),
 			fmt.Sprintf("%s.mv_rec = %s.mv_msg", ps, qs),
 			fmt.Sprintf("%s.r_enum = %s.r_other", ps, qs),
 			fmt.Sprintf("%s.f_rec = %s.f_msg", ps, qs),
-		}[r.Intn(5)]
+		}[which]
 		if !qOK {
 			return nil
 		}
-		pl, _ := listNode(pMsg, "r_rec")
-		return &hop{name: "cross-type-view-assign", stmt: stmt, rootVar: P.v, opNodes: withNode(pNodes, pl), direct: "direct-list-assign", mutating: true}
+		// the container the statement addresses (an accepted assignment of an empty view refills it in place)
+		var pc any
+		switch which {
+		case 0:
+			pc, _ = listNode(pMsg, "r_rec")
+		case 1:
+			pc, _ = listNode(pMsg, "r_msg")
+		case 2:
+			pc, _ = mapNode(pMsg, "mv_rec")
+		case 3:
+			pc, _ = listNode(pMsg, "r_enum")
+		}
+		return &hop{name: "cross-type-view-assign", stmt: stmt, rootVar: P.v, opNodes: withNode(pNodes, pc), direct: "direct-list-assign", mutating: true}
 	}
 }
 
